@@ -545,6 +545,10 @@ func runC17(c *engine.Ctx) {
 	// for the local packet size panics on a peer's larger datagram ----
 	c16DecodeInto(c, "R15")
 
+	// ---- R16 decoding is total: no constant index into received bytes without a length check (shared with C16.R33) ----
+	checkConstIndexBounded(c, "R16")
+	checkLoginRespFirst(c, "R17")
+
 	// ---- R12 the wire form of every message is the one encoding/json derives from the struct (which R2 pins): no type of
 	// package msg brings its own encoder or decoder — a hand-written MarshalJSON is a second schema that R2 cannot see ----
 	c.Rule("R12", "no type declared in pkg/msg has a MarshalJSON, UnmarshalJSON, MarshalText or UnmarshalText method")
@@ -651,4 +655,43 @@ func checkCodecDependency(c *engine.Ctx) {
 		}
 		return ""
 	}}, "buffer allocated only for 0 <= length <= max")
+}
+
+// checkLoginRespFirst (R17): the control stream starts with the clear-text LoginResp; everything after it goes through
+// the dispatcher's (encrypted) stream. Control.Start therefore writes the LoginResp before it starts any goroutine —
+// the worker starts the dispatcher, whose first write (the cipher's IV) would otherwise reach the wire first and be
+// decoded by the client as the login reply.
+func checkLoginRespFirst(c *engine.Ctx, rule string) {
+	c.Rule(rule, "Control.Start: every `go` statement is preceded on every path by the msg.WriteMsg of the LoginResp on the raw connection")
+	f := fn(c, "server.Control.Start")
+	write := funcObj(c, "pkg/msg", "WriteMsg")
+	if f == nil || write == nil {
+		return
+	}
+	n := 0
+	engine.ForEachInstr(f, func(in ssa.Instruction) {
+		g, ok := in.(*ssa.Go)
+		if !ok {
+			return
+		}
+		n++
+		c.AllPaths(fmt.Sprintf("server.Control.Start>go#%d", n), engine.PathCheck{Fn: f, Sink: engine.Is(g),
+			Event: func(x ssa.Instruction) string {
+				if call, ok := x.(*ssa.Call); ok && engine.SameFunc(engine.CalleeObj(call), write) {
+					if a := engine.CallArgs(call); len(a) == 2 {
+						if mi, ok := a[1].(*ssa.MakeInterface); ok && engine.IsNamed(mi.X.Type(), engine.ModPath+"/pkg/msg", "LoginResp") {
+							return "login-resp"
+						}
+					}
+				}
+				return ""
+			},
+			Pred: func(st *engine.PathState) string {
+				if st.HasEvent("login-resp") {
+					return ""
+				}
+				return "a goroutine is started before the LoginResp was written: the dispatcher's first encrypted bytes can overtake the clear-text login reply"
+			}}, "LoginResp first")
+	})
+	c.Floor(n, 1)
 }
